@@ -37,6 +37,14 @@ CHECKS = {
     note='Quick: 17 positions (14 fixed + 3 rotating by seed), thorough: all 53. Assumes distinct nodes have distinct extents. '
          'Structure is enumerated by path forking; values are decided by the solver.',
     technique='symbolic execution of MIR over tree families + Z3, native replay of every path', design='6/C05, 8'),
+ 'C07': dict(
+    text='The 4 vulnerability detectors executed from MIR: unsafe_erc20_operation and divide_before_multiply on expression forms x syntactic '
+         'positions (as C05); floating_pragma on pragma families incl. a fully symbolic pragma value (Z3 string; reported iff it contains ^); '
+         'unprotected_selfdestruct on function shapes kind x visibility x modifier x kill call x msg.sender guard x placement against the '
+         'three-valued oracle of the property text. Every path is replayed through the real parser and the compiled detector.',
+    note='Quick: ~700 selfdestruct shapes sampled by seed (always all public/external unguarded ones), thorough: all ~2000. Oracle leaves '
+         'undocumented msg.sender uses free. Same trusted base as C05.',
+    technique='symbolic execution of MIR over function/pragma families + Z3 strings, native replay of every path', design='6/C07, 8'),
 }
 NOT_YET = "check not built yet (framework under construction); see DESIGN.md section 6"
 NA = {
